@@ -7,7 +7,7 @@ VL == INSTANCE VerdictLib
 VARIABLES l, verdicts
 tvars == <<l, verdicts>>
 AddV(vs) == IF VL!Record(vs) THEN verdicts + Len(vs) ELSE verdicts   \* verdicts: a counter; the records live in a TLC register
-R == INSTANCE Router WITH Names <- {}, TypeSets <- {}, NsSets <- {}, MaxRoutes <- 0, AddrKinds <- {}, Emit <- FALSE, table <- <<>>, pkt <- 0
+R == INSTANCE Router WITH Names <- {}, TypeSets <- {}, NsSets <- {}, MaxRoutes <- 0, AddrKinds <- {}, Emit <- FALSE, table <- <<>>, pkt <- 0, HPackets <- {}, MaxDisp <- 0, hist <- <<>>
 Verdict(clause, sig, tid, detail) == [prop |-> "C06", clause |-> clause, sig |-> sig, tid |-> tid, idx |-> l, detail |-> detail]
 Ev(n) == l <= Len(Trace) /\ Trace[l].ev = n
 
